@@ -49,3 +49,23 @@ func init() {
 		}
 	}
 }
+
+func init() {
+	const cmdr = "internal/engine/command/commander.go"
+	const ref = "internal/engine/command/reference.go"
+	helper := Edit{File: ref, Old: "func NewReferencer() *Referencer {", New: "// reserve takes the reference and returns the function giving it back\nfunc (r *Referencer) reserve(ref Reference, key any) (func(), error) {\n\tif err := r.take(ref, key); err != nil {\n\t\treturn nil, err\n\t}\n\treturn func() {\n\t\tr.release(ref, key)\n\t}, nil\n}\n\nfunc NewReferencer() *Referencer {"}
+	for _, p := range []string{"C10", "C11", "C07"} {
+		addMutants(
+			Mutant{Property: p, Name: "benign-revert-guard-through-helper", File: cmdr,
+				Old:    "\tif err := commander.referencer.take(referenceReverts, id); err != nil {\n\t\treturn nil, NewErrRevertTransactionOccurring()\n\t}\n\tdefer commander.referencer.release(referenceReverts, id)\n",
+				New:    "\trelease, err := commander.referencer.reserve(referenceReverts, id)\n\tif err != nil {\n\t\treturn nil, NewErrRevertTransactionOccurring()\n\t}\n\tdefer release()\n",
+				Edits:  []Edit{helper},
+				Expect: "none", Benign: true},
+			Mutant{Property: p, Name: "revert-guard-helper-releases-for-the-loser", File: cmdr,
+				Old:    "\tif err := commander.referencer.take(referenceReverts, id); err != nil {\n\t\treturn nil, NewErrRevertTransactionOccurring()\n\t}\n\tdefer commander.referencer.release(referenceReverts, id)\n",
+				New:    "\trelease, err := commander.referencer.reserve(referenceReverts, id)\n\tdefer release()\n\tif err != nil {\n\t\treturn nil, NewErrRevertTransactionOccurring()\n\t}\n",
+				Edits:  []Edit{{File: ref, Old: "func NewReferencer() *Referencer {", New: "func (r *Referencer) reserve(ref Reference, key any) (func(), error) {\n\trelease := func() {\n\t\tr.release(ref, key)\n\t}\n\treturn release, r.take(ref, key)\n}\n\nfunc NewReferencer() *Referencer {"}},
+				Expect: map[string]string{"C10": "R10a:", "C11": "none", "C07": "none"}[p], Benign: p != "C10"},
+		)
+	}
+}
